@@ -4,6 +4,7 @@ import Setec.Driver.FsDrv
 import Setec.Driver.HttpDrv
 import Setec.Driver.CliDrv
 import Setec.Driver.StoreDrv
+import Setec.Driver.LookupDrv
 import Setec.Generated.Facts
 open Setec.Driver
 
@@ -56,6 +57,11 @@ def main (args : List String) : IO UInt32 := do
     let st ← loop stdin storeLine {} 1
     printCover st.cover
     IO.println s!"SUMMARY family=store steps={st.steps} clause_evals={st.steps * 6} propfail={st.fails} diverge={st.diverges}"
+    return 0
+  | ["lookup"] =>
+    let st ← loop stdin lookupLine {} 1
+    printCover st.cover
+    IO.println s!"SUMMARY family=lookup steps={st.cases} clause_evals={st.cases * 6} propfail={st.fails} diverge={st.diverges}"
     return 0
   | ["fs"] =>
     let st ← loop stdin fsLine {} 1
